@@ -226,7 +226,7 @@ func (s *state) node(t *rapid.T, d int) *ast.Node {
 			}
 		}
 		if s.cfg.Full {
-			kinds = append(kinds, ast.GNumbered)
+			kinds = append(kinds, ast.GNumbered, ast.GBalance)
 		}
 		gk := rapid.SampledFrom(kinds).Draw(t, "gkind")
 		g := ast.Group(gk, nil)
@@ -241,6 +241,13 @@ func (s *state) node(t *rapid.T, d int) *ast.Node {
 			}
 		case ast.GNumbered:
 			g.Num = rapid.SampledFrom([]int{1, 2, 3, 5, 9, 12}).Draw(t, "gnum")
+		case ast.GBalance:
+			if rapid.Bool().Draw(t, "balnamed") {
+				g.S = fmt.Sprintf("n%d", s.nNamed)
+				s.nNamed++
+				s.names = append(s.names, g.S)
+			}
+			g.S2 = fmt.Sprintf("?%d", rapid.IntRange(0, 5).Draw(t, "balslot"))
 		}
 		g.Kids[0] = s.node(t, d-1)
 		return g
@@ -345,6 +352,38 @@ func Pattern(t *rapid.T, cfg Cfg) *ast.Node {
 func Resolve(t *rapid.T, root *ast.Node, base ast.Opts, captureOrder bool, cfg Cfg) *ast.Info {
 	info := ast.Annotate(root, base, captureOrder)
 	nums := info.GroupNums
+	if cfg.NamedRefsOnly {
+		nums = nil
+		for _, n := range info.GroupNums {
+			if _, ok := info.NumToName[n]; ok {
+				nums = append(nums, n)
+			}
+		}
+	}
+	root.Walk(func(x *ast.Node) {
+		if x.K == ast.KGroup && x.G == ast.GBalance && len(x.S2) > 0 && x.S2[0] == '?' {
+			// bind the group to be uncaptured to an existing group other than this one
+			var cands []string
+			for _, n := range info.GroupNums {
+				if name, ok := info.NumToName[n]; ok {
+					if name != x.S {
+						cands = append(cands, name)
+					}
+				} else {
+					cands = append(cands, fmt.Sprint(n))
+				}
+			}
+			if len(cands) == 0 {
+				x.G = ast.GNon
+				x.S, x.S2 = "", ""
+				return
+			}
+			slot := int(x.S2[1] - '0')
+			x.S2 = cands[slot%len(cands)]
+		}
+	})
+	info = ast.Annotate(root, base, captureOrder)
+	nums = info.GroupNums
 	if cfg.NamedRefsOnly {
 		nums = nil
 		for _, n := range info.GroupNums {
